@@ -124,18 +124,21 @@ DC_C21(G, P, root, V) == C21_FirstFailing(Opaque(G, P), root, V) = ""
 CheckSet(G, P, root) == {o \in ReachB(G, P, root) : HasVC(G, o) /\ o \notin P}
 \* every distributed object of the traversal set is checked exactly once, nothing else is
 DC_Checked(G, P, H, K, N, root, R) ==
-  /\ R.checked = Cardinality(CheckSet(G, P, root))
-  /\ Cardinality(R.results) = R.checked
-  /\ \A x \in R.results : Resolve(Opaque(G, P), root, x.path, 1) \in CheckSet(G, P, root)
-  /\ \A o \in CheckSet(G, P, root) : \E x \in R.results : Resolve(Opaque(G, P), root, x.path, 1) = o
+  LET CS == CheckSet(G, P, root)
+      GP == Opaque(G, P)
+  IN /\ R.checked = Cardinality(CS)
+     /\ Cardinality(R.results) = R.checked
+     /\ {Resolve(GP, root, x.path, 1) : x \in R.results} = CS
 \* the counters are the sums of the per-object verdicts
 DC_Sums(G, P, H, K, N, root, R) ==
-  /\ R.healthy + R.unhealthy = R.checked
-  /\ R.unrecoverable <= R.unhealthy
-  /\ R.healthy = Cardinality({o \in CheckSet(G, P, root) : H[o] = N})
-  /\ R.unrecoverable = Cardinality({o \in CheckSet(G, P, root) : H[o] < K})
-  /\ \A x \in R.results : LET o == Resolve(Opaque(G, P), root, x.path, 1) IN
-                          x.healthy = (H[o] = N) /\ x.recoverable = (H[o] >= K)
+  LET CS == CheckSet(G, P, root)
+      GP == Opaque(G, P)
+  IN /\ R.healthy + R.unhealthy = R.checked
+     /\ R.unrecoverable <= R.unhealthy
+     /\ R.healthy = Cardinality({o \in CS : H[o] = N})
+     /\ R.unrecoverable = Cardinality({o \in CS : H[o] < K})
+     /\ \A x \in R.results : LET o == Resolve(GP, root, x.path, 1) IN
+                             o \in CS /\ x.healthy = (H[o] = N) /\ x.recoverable = (H[o] >= K)
 
 DC_WalkFirstFailing(G, P, root, V) ==
   IF ~DC_Hides(G, P, root, V) THEN "DC_Hides"
